@@ -159,6 +159,9 @@ func underWatchdog(run *rt.Run, sc c12Scenario, what string, frame string, f fun
 			return a < b
 		})
 		for _, g := range gs {
+			if g.State == "running" {
+				continue // the goroutine taking this dump (it is inside underWatchdog, too)
+			}
 			if g.Has(frame) && g.Has("underWatchdog") {
 				// report the innermost library frame
 				lib := ""
@@ -309,7 +312,7 @@ func runC12Scenario(run *rt.Run, sc c12Scenario) {
 		ok = underWatchdog(run, sc, "getters next to setters", "underWatchdog", func() {
 			var gw sync.WaitGroup
 			var stop int32
-			for g := 0; g < 3; g++ {
+			for g := 0; g < 6; g++ {
 				gw.Add(1)
 				go func() {
 					defer gw.Done()
@@ -320,7 +323,7 @@ func runC12Scenario(run *rt.Run, sc c12Scenario) {
 					}
 				}()
 			}
-			for k := 0; k < 400; k++ {
+			for k := 0; k < 4000; k++ {
 				b.SetSuccessThreshold("to", k%2)
 				b.SetSuccessThresholdSinks("to", 0)
 				b.RegisterNode(eventlogger.NodeID(fmt.Sprintf("gw-%d", k%4)), &plainNode{typ: eventlogger.NodeTypeFilter})
